@@ -37,13 +37,24 @@ let parse_line (s : string) : sexp =
       if s.[!pos] = '-' then incr pos;
       while !pos < n && s.[!pos] >= '0' && s.[!pos] <= '9' do incr pos done;
       if !pos = st then failwith "bad token";
-      A (z_of_int (int_of_string (String.sub s st (!pos - st))))
+      let tok = String.sub s st (!pos - st) in
+      if String.length tok <= 17 then A (z_of_int (int_of_string tok))
+      else begin
+        let neg = tok.[0] = '-' in
+        let ds = ref [] in
+        String.iteri (fun i c -> if not (i = 0 && neg) then ds := z_of_int (Char.code c - 48) :: !ds) tok;
+        A (z_of_digits neg (List.rev !ds))
+      end
     end in
   item ()
 
 let rec print_sexp (b : Buffer.t) (x : sexp) : unit =
   match x with
-  | A z -> Buffer.add_string b (string_of_int (int_of_z z))
+  | A z ->
+    let rec depth p = match p with XH -> 1 | XO q -> 1 + depth q | XI q -> 1 + depth q in
+    let small = match z with Z0 -> true | Zpos p -> depth p <= 60 | Zneg p -> depth p <= 60 in
+    if small then Buffer.add_string b (string_of_int (int_of_z z))
+    else List.iter (fun c -> Buffer.add_char b (Char.chr (int_of_z (match c with N0 -> Z0 | Npos p -> Zpos p)))) (z_to_text z)
   | L l ->
     Buffer.add_char b '(';
     List.iteri (fun i y -> if i > 0 then Buffer.add_char b ' '; print_sexp b y) l;
@@ -52,6 +63,7 @@ let rec print_sexp (b : Buffer.t) (x : sexp) : unit =
 let table : (string * (sexp -> sexp)) list = [
   ("C12", run_C12);
   ("C10", run_C10);
+  ("C07", run_C07);
 ]
 
 let () =
